@@ -5,7 +5,8 @@ from concurrent.futures import ThreadPoolExecutor
 
 import lib
 from lib import SPEC, MachineryError, extract_prints, new_run_dir, rm_run_dir, run_tlc
-from histreplay import writehist_drift, writehist_programs, writehist_rejecting_programs
+from histreplay import (defaults_drift, defaults_failing_programs, defaults_programs, writehist_drift, writehist_programs,
+                        writehist_rejecting_programs)
 from modelreplay import dlismodel_drift, dlismodel_mut_programs, dlismodel_programs, dlismodel_ref_programs
 
 SEG_ACTIONS = ['Segmenter.WriteSUL', 'Segmenter.BeginRecord', 'Segmenter.SegmentStep', 'Segmenter.Emit', 'Segmenter.FinalFlush']
@@ -56,6 +57,10 @@ M_WHIST = {'name': 'WriteHistory', 'module': 'WriteHistory.tla',
            'cfg': {'quick': 'MC_WriteHistory_quick.cfg', 'thorough': 'MC_WriteHistory_thorough.cfg'},
            'must_cover': ['WriteHistory.' + a for a in ('SetVal', 'SetFt', 'Rename', 'SetOrigin', 'PinCast', 'ClearCast', 'RejectCast', 'PinBounds',
                                                         'Extend', 'SetText', 'Write')], 'timeout': {'quick': 900, 'thorough': 7200}}
+M_DDEF = {'name': 'DerivedDefaults', 'module': 'DerivedDefaults.tla',
+          'cfg': {'quick': 'MC_DerivedDefaults_quick.cfg', 'thorough': 'MC_DerivedDefaults_thorough.cfg'},
+          'must_cover': ['DerivedDefaults.' + a for a in ('Rename', 'PinLong', 'PinDim', 'PinLim', 'SetShape', 'PinParDim', 'Write')],
+          'timeout': {'quick': 900, 'thorough': 7200}}
 M_CACHE = {'name': 'CacheModel', 'module': 'CacheModel.tla', 'cfg': {'quick': 'MC_CacheModel.cfg', 'thorough': 'MC_CacheModel_thorough.cfg'},
            'must_cover': ['CacheModel.Rename', 'CacheModel.SetOrigin', 'CacheModel.Write']}
 
@@ -188,13 +193,13 @@ REGISTRY = {
     'C12': {'models': [M_ATTR, M_DIMS], 'nontrivial': lambda c, p: c['files'] + c['raised'] > 0,
             'rule': 'code: every invalid class of the property (unequal rows, unsupported dtype, >2 dimensions, missing dataset, over-long names/labels/units/set names, non-ASCII text, integers outside their code, no origin/channels/frames) and degenerate inputs, combined with valid content; TLC requires: raised, or (for degenerate ones) a file every C01-C09/C16 clause accepts; non-trivial = a write was attempted',
             'assumptions': COMMON_ASSUME},
-    'C14': {'models': [M_CACHE, M_WHIST], 'extra_gen': [writehist_programs], 'drift': [writehist_drift], 'nontrivial': lambda c, p: c['cmp'] > 0,
+    'C14': {'models': [M_CACHE, M_WHIST, M_DDEF], 'extra_gen': [writehist_programs, defaults_programs], 'drift': [writehist_drift, defaults_drift], 'nontrivial': lambda c, p: c['cmp'] > 0,
             'rule': 'code: histories (1..3 other files built and written first, names reused with other origin/copy/type/value, HC entered and left, the same DLISFile written twice, mutation after a write) vs. a fresh process building the final specification alone; TLC compares the bytes of writes whose Canon and expected rows are equal; non-trivial = at least one comparison',
             'assumptions': COMMON_ASSUME},
     'C17': {'models': [M_DLIS], 'extra_gen': [dlismodel_programs], 'drift': [dlismodel_drift], 'nontrivial': lambda c, p: c['hcev'] > 0 or c['files'] > 0,
             'rule': 'code: each restricted aspect violated or not x enter/leave patterns (inside, outside, nested, after exception, decorator, after nested exit), followed by a breaching build outside the context; TLC tracks the flag with a stack model and judges flag discipline, breach-written, accepted-outside',
             'assumptions': COMMON_ASSUME},
-    'C20': {'models': [M_DLIS, M_WHIST], 'extra_gen': [dlismodel_programs, writehist_rejecting_programs], 'drift': [dlismodel_drift, writehist_drift], 'nontrivial': lambda c, p: c['rejected'] > 0 or c['raised'] > 0,
+    'C20': {'models': [M_DLIS, M_WHIST, M_DDEF], 'extra_gen': [dlismodel_programs, writehist_rejecting_programs, defaults_failing_programs], 'drift': [dlismodel_drift, writehist_drift, defaults_drift], 'nontrivial': lambda c, p: c['rejected'] > 0 or c['raised'] > 0,
             'rule': 'code: for every add_* method rejected calls (wrong type, value outside a hard enumeration, invalid reference, invalid cast dtype) first/between/after accepted same-named ones, in process 1; process 2 runs the history without them; TLC compares inventories with Canon and the projections (copy number, origin, dataset name) of the two processes; failed writes followed by a good one vs. a fresh process',
             'assumptions': COMMON_ASSUME},
 }
